@@ -107,6 +107,7 @@ def runs_of(mask):
 
 def case(kind: str, sh: dict, pid: str):
     def h(I):
+        B.ALLOW_INF[0] = bool(sh.get("allow_inf"))
         def P(p, label, cond, note=""):
             if p == pid:
                 I.prove(f"{p}.{kind}.{label}", cond, note)
@@ -268,6 +269,11 @@ def shapes(tier: str, pid: str):
         if not q:
             A((kind, {"n": 3, key: 3, "lab": [1], "links": 0}))
             A((kind, {"n": 8, key: 1, "lab": [1], "links": 0}))
+    if pid == "C02":
+        # sizes must agree also when a deciding component is +-inf (stored as a gap)
+        for kind, key in (("data3d", "tracks"), ("emg", "signals"), ("force3d", "tracks"), ("fpdata", "plats")):
+            A((kind, {"n": 2, key: 1, "lab": [1], "links": 0, "allow_inf": True}))
+            A((kind, {"n": 3, key: 1, "lab": [0], "links": 0, "allow_inf": True}))
     A(("data3d", {"n": 2, "tracks": 1, "fmt": 2, "lab": [1]}))
     A(("data3d", {"n": 1, "tracks": 1, "fmt": 1, "links": None, "lab": [1]}))  # links attribute never set
     A(("data3d", {"n": 1, "tracks": 1, "fmt": 1, "links": 2, "lab": [40 if q else 255], "flag": 1}))
